@@ -9,6 +9,7 @@ import (
 	"bufio"
 	"encoding/json"
 	"fmt"
+	"math/big"
 	"os"
 	"path/filepath"
 	"strings"
@@ -146,6 +147,22 @@ func uiPart(r *ev.Report) {
 				os.Remove(dump)
 				d.Keys(zeros + ks)
 				expect(c, readDump(dump), k)
+				r.Eval(1)
+			}
+			// (1c) a number that equals k only modulo 2^32, 2^63 or 2^64 is another number, and no
+			// page has that many links
+			for _, m := range []struct{ name, add string }{{"2^32", "4294967296"}, {"2^63", "9223372036854775808"}, {"2^64", "18446744073709551616"}, {"2^65", "36893488147419103232"}} {
+				num, _ := new(big.Int).SetString(m.add, 10)
+				num.Add(num, new(big.Int).SetInt64(int64(k)))
+				c.History = "plus-" + m.name
+				os.Remove(dump)
+				d.Keys(num.String() + "\r")
+				if rec := readDump(dump); len(rec) != 0 {
+					r.Violation("typing:"+c.History+":out-of-range-opened", map[string]any{"case": c, "typed": num.String(), "argv": rec[0].Argv, "msg": fmt.Sprintf("the number %s is outside 1..%d but a link was opened", num.String(), total)})
+				}
+				if snap, _ := d.Snapshot(); snap.Mode != 1 {
+					d.Key(27)
+				}
 				r.Eval(1)
 			}
 			// (2) after a cancelled number and a cancelled command
